@@ -6,3 +6,5 @@ NEXT Next
 INVARIANT WellFounded
 INVARIANT ExportTopo
 INVARIANT ExportGeneric
+INVARIANT UmLaws
+INVARIANT ExportUm
